@@ -614,13 +614,23 @@ fn la_case(
 /// iterator to another character boundary and the rest of the stream is judged by the gate rule
 /// from there ("all scan start offsets including after set_offset").
 fn c04_reset_case(rng: &mut Rng, st: &mut Stats) -> CaseOutcome {
+    reset_case(rng, st, false)
+}
+
+/// The same history (use the iterator, then reset it once or several times) judged by the selection
+/// rule of C05: a lookahead result remembered from before a reset must not decide the choice.
+fn c05_reset_case(rng: &mut Rng, st: &mut Stats) -> CaseOutcome {
+    reset_case(rng, st, true)
+}
+
+fn reset_case(rng: &mut Rng, st: &mut Stats, select: bool) -> CaseOutcome {
     use scnr::ScannerModeSwitcher;
     let mut p = GenParams::varied(rng);
     p.max_nodes = 8;
     let (cfg, input) = if rng.chance(1, 4) {
         gen_directed_la(rng)
     } else {
-        let cfg = gen_la_mode(rng, &p, 1);
+        let cfg = gen_la_mode(rng, &p, if select { 2 } else { 1 });
         let res_refs = cfg.all_res();
         let input = gen_input(rng, &res_refs, &p.letters, 30);
         (cfg, input)
@@ -633,7 +643,7 @@ fn c04_reset_case(rng: &mut Rng, st: &mut Stats) -> CaseOutcome {
     let resets: Vec<usize> = (0..rng.range(1, 3)).map(|_| inp.off[rng.below(inp.len() + 1)]).collect();
     let peek_first = rng.chance(1, 2);
     let case = || {
-        let mut c = case_json("tok_gate_reset", &cfg, &input, 0, BuildPath::Uncached);
+        let mut c = case_json(if select { "tok_select_reset" } else { "tok_gate_reset" }, &cfg, &input, 0, BuildPath::Uncached);
         c["consume"] = json!(consume);
         c["resets"] = json!(resets);
         c["peek_first"] = json!(peek_first);
@@ -680,7 +690,9 @@ fn c04_reset_case(rng: &mut Rng, st: &mut Stats) -> CaseOutcome {
         let start = inp.char_index(*o).unwrap();
         let complete = k + 1 == streams.len();
         // a partial stream is judged up to its last token only: append nothing, cut the input
-        let r = if complete {
+        let r = if select {
+            check_selection_rule(pats, &inp, toks, st)
+        } else if complete {
             check_gate_rule(pats, &inp, toks, start, st)
         } else {
             // soundness and completeness up to the end of the last consumed token
@@ -814,6 +826,9 @@ pub fn c05(tier: Tier) -> i32 {
         }
         CaseOutcome::Ok
     }));
+    // Stream 4: the selection after resets of a used iterator.
+    let nreset = ctx.scale(15_000, 1_000_000);
+    res.merge(run_cases(&ctx, 4, nreset, |rng, _i, st| c05_reset_case(rng, st)));
     // Stream 3: lookahead texts of 250 - 140 000 characters: extents across 2^8, 2^16 and 2^17.
     #[cfg(feature = "hooks")]
     {
@@ -821,13 +836,14 @@ pub fn c05(tier: Tier) -> i32 {
         res.merge(run_cases(&ctx, 3, nlong, |rng, _i, st| crate::checks_scale::long_lookahead_case(rng, st, false)));
     }
     let report = Report::new(
-        "stream 3: long lookahead texts - candidates such as k(?=[bc]+d) against k[bc]* and k[bc]*d, m+(?!é+x), n(?=(é|€)+) against n(é|€)* in random priority order on inputs whose runs are 250 - 140 000 characters long (extents across 2^8, 2^16, 2^17 bytes, multi-byte included), every token compared with the derivative-based reference (maximal extent, first listed pattern); stream 1: random single-mode configurations with >= 2 patterns of which >= 1 has a lookahead, inputs of 0-24 chars; all priority orders (permutations of up to 4 patterns) of sampled pattern multisets; the directed family enumerating the length interleavings (A shorter than B with A's lookahead longer/equal/shorter; failed lookahead before/after a satisfied one). Oracle: every reported token must be among the candidates of maximal extent (own byte length + longest positive-lookahead match) of the first listed pattern among those; span and type must belong to one candidate; panics are captured per scan. Non-trivial: at least one lookahead evaluation; distinct by hash of (configuration, input).",
+        "stream 4: an iterator that has peeked and consumed tokens is reset once or several times with set_offset and every token it reports afterwards is judged by the selection rule at its start (a remembered lookahead result must not decide a later choice); stream 3: long lookahead texts - candidates such as k(?=[bc]+d) against k[bc]* and k[bc]*d, m+(?!é+x), n(?=(é|€)+) against n(é|€)* in random priority order on inputs whose runs are 250 - 140 000 characters long (extents across 2^8, 2^16, 2^17 bytes, multi-byte included), every token compared with the derivative-based reference (maximal extent, first listed pattern); stream 1: random single-mode configurations with >= 2 patterns of which >= 1 has a lookahead, inputs of 0-24 chars; all priority orders (permutations of up to 4 patterns) of sampled pattern multisets; the directed family enumerating the length interleavings (A shorter than B with A's lookahead longer/equal/shorter; failed lookahead before/after a satisfied one). Oracle: every reported token must be among the candidates of maximal extent (own byte length + longest positive-lookahead match) of the first listed pattern among those; span and type must belong to one candidate; panics are captured per scan. Non-trivial: at least one lookahead evaluation; distinct by hash of (configuration, input).",
     )
     .floor("pos_with_different_extents", 5000)
     .floor("pos_with_equal_extent_different_patterns", 1000)
     .floor("la_pos_failed", 1000)
     .floor("token_selected", 20_000)
     .floor("priority_orders_tried", 5000)
+    .floor("reset_on_used_iterator_checked", 10_000)
     .floor("scans_with_a_lookahead_text_longer_than_65535_chars", if cfg!(feature = "hooks") { 20 } else { 0 })
     .assume("lengths are byte lengths; ties among several lengths of one pattern are left open by the statement and any of them is accepted");
     finish(&ctx, res, report)
